@@ -53,6 +53,15 @@ TEMPS = dict(
                 P_surface=[1e6, 3e5, 1e5], P_top=[1e-1, 1e0, 3e0]),
     rodgers=dict([('T_%d' % (i + 1), [1000.0 - 50 * i, 1200.0 - 30 * i, 800.0 + 10 * i]) for i in range(NL)] +
                  [('correlation_length', [5.0, 2.0, 9.0])]))
+# constructor defaults of the built-in components: a walked parameter whose value equals its default is left OUT of the
+# constructor call in half of the walks, so that default arguments (shared mutable defaults, defaults computed at
+# import time) are part of what "a freshly built model" means
+DEFAULTS = dict(planet_mass=1.0, planet_radius=1.0, planet_distance=1.0, atm_min_pressure=1e-4, atm_max_pressure=1e6,
+                clouds_pressure=1e3, H2O=1e-5, CH4_surface=1e-4, CH4_top=1e-8, CH4_P=1e3, CO2_surface=1e-4, CO2_top=1e-8,
+                He_H2=0.17567, flat_mix_ratio=1e-10, flat_bottomP=-1, flat_topP=-1, lee_mie_radius=0.01, lee_mie_q=40,
+                lee_mie_mix_ratio=1e-10, lee_mie_bottomP=-1, lee_mie_topP=-1, T=1500, T_irr=1500, kappa_irr=0.01,
+                kappa_v1=0.005, kappa_v2=0.005, alpha=0.5, T_int_guillot=100, T_surface=1500.0, T_top=200.0,
+                correlation_length=5.0)
 GROUPS = [['planet_mass', 'planet_radius', 'planet_distance'], ['atm_min_pressure', 'atm_max_pressure', 'clouds_pressure'],
           ['H2O', 'CH4_surface', 'CH4_top'], ['CH4_P', 'CO2_surface', 'CO2_top'], ['He_H2', 'N2_H2', 'H2O'],
           ['NH3_surface', 'NH3_alpha', 'NH3_beta'], ['NH3_gamma', 'N2_H2', 'planet_radius'],
@@ -64,14 +73,17 @@ TGROUPS = dict(isothermal=[['T', 'planet_mass', 'N2_H2']],
                rodgers=[['T_1', 'T_2', 'T_3'], ['T_4', 'T_8', 'correlation_length'], ['T_5', 'T_6', 'T_7']])
 
 
-def tables(temp):
+def tables(temp, defaults=False):
     t = dict(COMMON)
     t.update(TEMPS[temp])
+    if defaults:            # the first value of every parameter that has a constructor default IS that default
+        t = {k: ([DEFAULTS[k]] + [x for x in v if x != DEFAULTS[k]][:2] if k in DEFAULTS else v) for k, v in t.items()}
     return t
 
 
-def build(temp, c, family='transmission'):
-    """A model built with the values of c handed to the CONSTRUCTORS of its components."""
+def build(temp, c, family='transmission', omit=False, fill2=False):
+    """A model built with the values of c handed to the CONSTRUCTORS of its components (omit: arguments equal to the
+    constructor default are not passed; fill2: two fill gases, so that the default scalar ratio is usable)."""
     from taurex.model import TransmissionModel, EmissionModel
     from taurex.data.planet import Planet
     from taurex.data.stellar import BlackbodyStar
@@ -80,35 +92,39 @@ def build(temp, c, family='transmission'):
     from taurex.data.profiles.chemistry.gas.twopointgas import TwoPointGas
     from taurex.contributions import (AbsorptionContribution, RayleighContribution, SimpleCloudsContribution,
                                       FlatMieContribution, LeeMieContribution)
+    def kw(**pairs):
+        # pairs: constructor keyword -> parameter name
+        return {k: c[n] for k, n in pairs.items() if not (omit and n in DEFAULTS and c[n] == DEFAULTS[n])}
     if temp == 'isothermal':
-        tp = Isothermal(T=c['T'])
+        tp = Isothermal(**kw(T='T'))
     elif temp == 'guillot':
-        tp = Guillot2010(T_irr=c['T_irr'], kappa_irr=c['kappa_irr'], kappa_v1=c['kappa_v1'], kappa_v2=c['kappa_v2'],
-                         alpha=c['alpha'], T_int=c['T_int_guillot'])
+        tp = Guillot2010(**kw(T_irr='T_irr', kappa_irr='kappa_irr', kappa_v1='kappa_v1', kappa_v2='kappa_v2',
+                              alpha='alpha', T_int='T_int_guillot'))
     elif temp == 'npoint':
-        tp = NPoint(T_surface=c['T_surface'], T_top=c['T_top'], P_surface=c['P_surface'], P_top=c['P_top'],
+        tp = NPoint(P_surface=c['P_surface'], P_top=c['P_top'], **kw(T_surface='T_surface', T_top='T_top'),
                     temperature_points=[c['T_point1'], c['T_point2']], pressure_points=[c['P_point1'], c['P_point2']],
                     smoothing_window=3)
     else:
-        tp = Rodgers2000(temperature_layers=[c['T_%d' % (i + 1)] for i in range(NL)], correlation_length=c['correlation_length'])
-    chem = TaurexChemistry(fill_gases=['H2', 'He', 'N2'], ratio=[c['He_H2'], c['N2_H2']])
-    chem.addGas(ConstantGas('H2O', mix_ratio=c['H2O']))
-    chem.addGas(TwoLayerGas('CH4', mix_ratio_surface=c['CH4_surface'], mix_ratio_top=c['CH4_top'], mix_ratio_P=c['CH4_P'],
-                            mix_ratio_smoothing=3))
-    chem.addGas(TwoPointGas('CO2', mix_ratio_surface=c['CO2_surface'], mix_ratio_top=c['CO2_top']))
+        tp = Rodgers2000(temperature_layers=[c['T_%d' % (i + 1)] for i in range(NL)], **kw(correlation_length='correlation_length'))
+    if fill2:
+        chem = TaurexChemistry(fill_gases=['H2', 'He'], **kw(ratio='He_H2'))
+    else:
+        chem = TaurexChemistry(fill_gases=['H2', 'He', 'N2'], ratio=[c['He_H2'], c['N2_H2']])
+    chem.addGas(ConstantGas('H2O', **kw(mix_ratio='H2O')))
+    chem.addGas(TwoLayerGas('CH4', mix_ratio_smoothing=3, **kw(mix_ratio_surface='CH4_surface', mix_ratio_top='CH4_top', mix_ratio_P='CH4_P')))
+    chem.addGas(TwoPointGas('CO2', **kw(mix_ratio_surface='CO2_surface', mix_ratio_top='CO2_top')))
     chem.addGas(PowerGas('NH3', mix_ratio_surface=c['NH3_surface'], alpha=c['NH3_alpha'], beta=c['NH3_beta'], gamma=c['NH3_gamma']))
     klass = TransmissionModel if family == 'transmission' else EmissionModel
-    m = klass(planet=Planet(planet_mass=c['planet_mass'], planet_radius=c['planet_radius'], planet_distance=c['planet_distance']),
+    m = klass(planet=Planet(**kw(planet_mass='planet_mass', planet_radius='planet_radius', planet_distance='planet_distance')),
               star=BlackbodyStar(), chemistry=chem, temperature_profile=tp, nlayers=NL,
-              atm_min_pressure=c['atm_min_pressure'], atm_max_pressure=c['atm_max_pressure'])
+              **kw(atm_min_pressure='atm_min_pressure', atm_max_pressure='atm_max_pressure'))
     m.add_contribution(AbsorptionContribution())
     m.add_contribution(RayleighContribution())
     if family == 'transmission':
-        m.add_contribution(SimpleCloudsContribution(clouds_pressure=c['clouds_pressure']))
-    m.add_contribution(FlatMieContribution(flat_mix_ratio=c['flat_mix_ratio'], flat_bottomP=c['flat_bottomP'], flat_topP=c['flat_topP']))
-    m.add_contribution(LeeMieContribution(lee_mie_radius=c['lee_mie_radius'], lee_mie_q=c['lee_mie_q'],
-                                          lee_mie_mix_ratio=c['lee_mie_mix_ratio'], lee_mie_bottomP=c['lee_mie_bottomP'],
-                                          lee_mie_topP=c['lee_mie_topP']))
+        m.add_contribution(SimpleCloudsContribution(**kw(clouds_pressure='clouds_pressure')))
+    m.add_contribution(FlatMieContribution(**kw(flat_mix_ratio='flat_mix_ratio', flat_bottomP='flat_bottomP', flat_topP='flat_topP')))
+    m.add_contribution(LeeMieContribution(**kw(lee_mie_radius='lee_mie_radius', lee_mie_q='lee_mie_q', lee_mie_mix_ratio='lee_mie_mix_ratio',
+                                               lee_mie_bottomP='lee_mie_bottomP', lee_mie_topP='lee_mie_topP')))
     m.build()
     return m
 
@@ -175,7 +191,13 @@ def walks_from_tlc(n, seed, depth=9):
     return w, res
 
 
-def scenarios(tier):
+CHEM_NAMES = {'H2O', 'CH4_surface', 'CH4_top', 'CH4_P', 'CO2_surface', 'CO2_top', 'He_H2', 'N2_H2', 'NH3_surface', 'NH3_alpha',
+              'NH3_beta', 'NH3_gamma'}
+
+
+def scenarios(tier, only=None):
+    if only == 'chemistry':       # the composition parameters, on one temperature family (used by C10)
+        return [('isothermal', g) for g in GROUPS if set(g) & CHEM_NAMES]
     out = []
     for temp in ('isothermal', 'guillot', 'npoint', 'rodgers'):
         groups = TGROUPS[temp] + (GROUPS if (temp == 'npoint' or tier != 'quick') else GROUPS[(len(out)) % 3::3])
@@ -184,14 +206,19 @@ def scenarios(tier):
     return out
 
 
-def replay_one(temp, names, init, walk, route_kind, family, ids):
-    """Replay one walk; returns (events, trail, info)."""
-    tab = tables(temp)
+def replay_one(temp, names, init, walk, route_kind, family, ids, style='explicit'):
+    """Replay one walk; returns (events, trail, info).  style 'defaults': the first value of every parameter is its
+    constructor default and arguments equal to the default are omitted when a model is built."""
+    omit = style == 'defaults'
+    fill2 = omit and 'N2_H2' not in names
+    tab = tables(temp, defaults=omit)
     cur = {k: v[0] for k, v in tab.items()}
     cfg = [init[d] % 3 for d in range(len(names))]
     for d, n in enumerate(names):
         cur[n] = tab[n][cfg[d]]
-    m = build(temp, cur, family)
+    if fill2:
+        tab = {k: v for k, v in tab.items() if k != 'N2_H2'}
+    m = build(temp, cur, family, omit, fill2)
     route = Route(route_kind, m, names, cur)
     base = readings(m)
     walked = set(names)
@@ -214,7 +241,7 @@ def replay_one(temp, names, init, walk, route_kind, family, ids):
 
     events, trail, info = [], [], {}
     rd, oth, moved, r = look()
-    events.append(dict(ev='init', rd=rd, d=0, v=0, oth=oth, dig=0, fresh=0))
+    events.append(dict(ev='init', rd=rd, cfg=list(cfg), d=0, v=0, oth=oth, dig=0, fresh=0))
     for op, d, v in walk:
         if op == 'set':
             d0 = d - 1
@@ -234,21 +261,21 @@ def replay_one(temp, names, init, walk, route_kind, family, ids):
             rd, oth, moved, r = look()
             if moved and 'moved' not in info:
                 info['moved'] = 'after %s: other parameters changed: %s' % (trail[-1], ', '.join('%s %r -> %r' % (k, base.get(k), r.get(k)) for k in moved[:4]))
-            events.append(dict(ev='set', rd=rd, d=d0 + 1, v=v0, oth=oth, dig=0, fresh=0))
+            events.append(dict(ev='set', rd=rd, cfg=[], d=d0 + 1, v=v0, oth=oth, dig=0, fresh=0))
         else:
             a = observe(m)
-            b = observe(build(temp, cur, family))
+            b = observe(build(temp, cur, family, omit, fill2))
             ia = ids.setdefault(a, len(ids) + 1)
             ib = ids.setdefault(b, len(ids) + 1)
             rd, oth, moved, r = look()
             trail.append('eval' + ('' if ia == ib else '!'))
             if ia != ib and 'diff' not in info:
                 info['diff'] = 'long-lived %s... vs fresh %s...' % (a[:140], b[:140])
-            events.append(dict(ev='eval', rd=rd, d=0, v=0, oth=oth, dig=ia, fresh=ib))
+            events.append(dict(ev='eval', rd=rd, cfg=[], d=0, v=0, oth=oth, dig=ia, fresh=ib))
     return events, trail, info
 
 
-def run_paramframe(ctx, nwalks, clause='registry_frame_rule'):
+def run_paramframe(ctx, nwalks, clause='registry_frame_rule', only=None):
     install_opacities()
     res0 = ctx.check_spec('registry design (ReadYourWrite, FrameRule, RunIsPure)', 'MC_ParamFrame', 'MC_ParamFrame.cfg')
     walks, res = walks_from_tlc(nwalks, ctx.seed + 23)
@@ -263,14 +290,15 @@ def run_paramframe(ctx, nwalks, clause='registry_frame_rule'):
         dense.append(dict(init=w['init'], walk=dw))
     events, meta, ids = [], {}, {}
     tid = 0
-    scs = scenarios(ctx.tier)
+    scs = scenarios(ctx.tier, only)
     for si, (temp, names) in enumerate(scs):
         for wi, w in enumerate(walks + dense):
             tid += 1
             route_kind = 'optimizer' if (wi + si) % 3 == 2 else 'model'
             family = 'emission' if (wi + si) % 4 == 1 and 'clouds_pressure' not in names else 'transmission'
             try:
-                ev, trail, info = replay_one(temp, names, w['init'], w['walk'], route_kind, family, ids)
+                style = 'defaults' if (wi + 2 * si) % 2 == 1 else 'explicit'
+                ev, trail, info = replay_one(temp, names, w['init'], w['walk'], route_kind, family, ids, style)
             except Machinery:
                 raise
             except Exception as e:   # noqa
@@ -278,8 +306,8 @@ def run_paramframe(ctx, nwalks, clause='registry_frame_rule'):
             for e in ev:
                 e['tid'] = tid
             events += ev
-            meta[tid] = dict(scenario='%s:%s:%s:%s' % (family, temp, route_kind, '+'.join(names)), init=w['init'],
-                             walk=w['walk'], trail=trail, info=info, temp=temp, names=names, route=route_kind, family=family)
+            meta[tid] = dict(scenario='%s:%s:%s:%s:%s' % (family, temp, route_kind, style, '+'.join(names)), init=w['init'],
+                             walk=w['walk'], trail=trail, info=info, temp=temp, names=names, route=route_kind, family=family, style=style)
     ok, bad, res2 = validate_trace('Trace_ParamFrame', 'Trace_ParamFrame.cfg', events, timeout=1200)
     ctx.add_tlc('trace-registry', res2, counts=False)
     if res2.postcondition_false and not bad:
@@ -291,7 +319,7 @@ def run_paramframe(ctx, nwalks, clause='registry_frame_rule'):
         ctx.verdict(clause, b is None, cls='%s:%s' % (m['scenario'], why),
                     detail='%s after %s: %s %s' % (m['scenario'], ' '.join(m['trail']), why, m['info'].get('moved') or m['info'].get('diff') or ''),
                     vector=dict(paramframe=dict(temp=m['temp'], names=m['names'], route=m['route'], family=m['family'],
-                                                init=m['init'], walk=m['walk'])))
+                                                style=m['style'], init=m['init'], walk=m['walk'])))
     ctx.traces += len(meta)
     good = [e for e in events if e['ev'] == 'set' and e['tid'] not in badt]
     if good:          # canary: a reading that does not follow the write must be rejected
@@ -315,7 +343,7 @@ def replay_vector(ctx, v):
     install_opacities()
     p = v['vector']['paramframe']
     ids = {}
-    ev, trail, info = replay_one(p['temp'], p['names'], p['init'], p['walk'], p['route'], p['family'], ids)
+    ev, trail, info = replay_one(p['temp'], p['names'], p['init'], p['walk'], p['route'], p['family'], ids, p.get('style', 'explicit'))
     for e in ev:
         e['tid'] = 1
     ok, bad, _ = validate_trace('Trace_ParamFrame', 'Trace_ParamFrame.cfg', ev)
